@@ -65,9 +65,13 @@ def _payload(fields: Dict[str, Any]) -> Any:
 MA = _payload({"x": (int, ...), "y": (str, "d")})
 MB = _payload({"k": (int, ...)})
 
-ANN = {"MA": "MA", "MB": "MB", "none": None, "Any": "typing.Any", "int": "int", "float": "float", "str": "str", "bool": "bool", "List[int]": "typing.List[int]",
+class Plain:
+    """a plain class: pydantic cannot build a schema for it, so a value for a parameter annotated with it arrives unchanged"""
+
+
+ANN = {"Plain": "Plain", "List[Plain]": "typing.List[Plain]", "MA": "MA", "MB": "MB", "none": None, "Any": "typing.Any", "int": "int", "float": "float", "str": "str", "bool": "bool", "List[int]": "typing.List[int]",
        "Dict[str,int]": "typing.Dict[str, int]", "Optional[int]": "typing.Optional[int]", "M": "M", "D": "D"}
-ANN_OBJ = {"MA": MA, "MB": MB, "Any": typing.Any, "int": int, "float": float, "str": str, "bool": bool, "List[int]": typing.List[int],
+ANN_OBJ = {"Plain": Plain, "List[Plain]": typing.List[Plain], "MA": MA, "MB": MB, "Any": typing.Any, "int": int, "float": float, "str": str, "bool": bool, "List[int]": typing.List[int],
            "Dict[str,int]": typing.Dict[str, int], "Optional[int]": typing.Optional[int], "M": M, "D": D}
 
 SCAL = st.one_of(st.none(), st.booleans(), st.integers(-2**70, 2**70), st.floats(allow_nan=False, allow_infinity=False),
@@ -92,7 +96,7 @@ def cases() -> Any:
     free = st.lists(_param(st.sampled_from(sorted(ANN) + ["none", "none", "int", "float", "bool"]), VALUE,
                            st.sampled_from([False, False, False, True]), st.booleans(), st.sampled_from([False] * 7 + [True]),
                            st.sampled_from([False, False, False, True]), st.sampled_from([False, False, False, True])), min_size=1, max_size=6)
-    drift = st.lists(_param(st.sampled_from(["none", "none", "Any", "int", "float", "str", "bool", "List[int]", "Dict[str,int]", "M", "D", "Optional[int]", "MA", "MB"]),
+    drift = st.lists(_param(st.sampled_from(["none", "none", "Any", "Plain", "int", "float", "str", "bool", "List[int]", "Dict[str,int]", "M", "D", "Optional[int]", "MA", "MB"]),
                             AMBIG, st.just(False), st.sampled_from([False, False, True]), st.just(False), st.just(False), st.just(False)),
                      min_size=2, max_size=6)
     mixed = st.lists(_param(st.sampled_from(["none", "Any", "int", "int", "float", "str", "bool", "List[int]", "Dict[str,int]", "M", "D", "MA", "MB"]),
@@ -202,7 +206,7 @@ def run_case(c: Dict[str, Any]) -> Outcome:
     if kwo:
         sig += (", " if sig else "") + "*, " + ", ".join(f for p, f in plist if p["kwonly"])
     got: Dict[str, Any] = {}
-    ns = {"typing": typing, "M": M, "D": D, "MA": MA, "MB": MB, "_dep_value": _dep_value, "Context": Context, "TaskiqDepends": TaskiqDepends, "GOT": got, "__name__": __name__}
+    ns = {"typing": typing, "Plain": Plain, "M": M, "D": D, "MA": MA, "MB": MB, "_dep_value": _dep_value, "Context": Context, "TaskiqDepends": TaskiqDepends, "GOT": got, "__name__": __name__}
     allnames = [names[id(p)] for p, _ in plist]
     body = "    GOT.update(dict(" + ", ".join(f"{n}={n}" for n in allnames) + "))\n"
     exec(("async def" if c["is_async"] else "def") + f" task({sig}):\n" + body, ns)
@@ -268,14 +272,21 @@ def run_case(c: Dict[str, Any]) -> Outcome:
         m = k._prepare_message(*args, **kwargs)
         back = b.formatter.loads(b.formatter.dumps(m).message)
         await k.kiq(*args, **kwargs)
-        await r.callback(b.q.pop(0).message)
+        try:
+            await r.callback(b.q.pop(0).message)
+        except Exception as exc:  # noqa: BLE001 - processing a delivery is not supposed to raise
+            escaped.append(f"{type(exc).__name__}: {short(exc, 160)}")
         res = await b.result_backend.get_result("T") if await b.result_backend.is_result_ready("T") else None
         return m, back, res
 
+    escaped: List[str] = []
     try:
         m, back, res = asyncio.run(go())
     finally:
         AsyncBroker.global_task_registry.pop("t", None)
+    if escaped:
+        out.add("C08.a", f"def task({sig}) called with args={short(args, 150)} kwargs={short(kwargs, 150)}: processing the delivery raised {escaped[0]}; the function was not invoked")
+        return out
     if got.get("__shadow_ran__"):
         out.add("C08.a", "the same-named shared task was executed instead of the broker's own task")
     if back != m:
